@@ -30,6 +30,9 @@ pub enum Op {
     Read(Option<(String, usize)>),
     /// write a user packet whose frame has this length
     Write(usize),
+    /// udp: read while nothing is on its way: the blocking socket's read time-out fires (an I/O error, after which the session
+    /// goes on); the tokio read is dropped after a while (a cancellation)
+    Quiet,
 }
 
 pub struct Session {
@@ -114,6 +117,7 @@ pub fn run_udp_blocking(pool: Arc<Pool>, s: &Session, seed: u64) -> SessionResul
     app.connect(peer.local_addr().unwrap()).unwrap();
     app.set_read_timeout(Some(READ_LIMIT)).unwrap();
     peer.set_read_timeout(Some(READ_LIMIT)).unwrap();
+    let app_ctl = app.try_clone().expect("clone socket");
     let mut framed = Framed::new(Box::new(UdpStream::from(app)), Codec::new(crate::frames::mode_of(&s.mode)));
     framed.verify_version(s.verify);
     book.ev(json!({"ev": "Reset", "transport": "udp", "flavor": "blocking", "verify": s.verify, "mode": s.mode}));
@@ -135,6 +139,17 @@ pub fn run_udp_blocking(pool: Arc<Pool>, s: &Session, seed: u64) -> SessionResul
                 }
                 let _ = peer.send(&bytes).expect("peer send");
                 book.ev(json!({"ev": "PeerDgram", "frames": desc}));
+            },
+            Op::Quiet => {
+                let _ = app_ctl.set_read_timeout(Some(Duration::from_millis(120)));
+                book.ev(json!({"ev": "ReadCall"}));
+                let r = std::panic::catch_unwind(std::panic::AssertUnwindSafe(|| framed.read())).map_err(|_| ());
+                let mut o = classify_result(&mut book.sh, r);
+                if o.t == "io_other" && (o.detail.contains("WouldBlock") || o.detail.contains("TimedOut")) {
+                    o.t = "io_err".into(); // the socket's read time-out: a transient I/O error to the connection
+                }
+                book.ev(result_event(&o));
+                let _ = app_ctl.set_read_timeout(Some(READ_LIMIT));
             },
             Op::Read(exp) => {
                 book.ev(json!({"ev": "ReadCall"}));
@@ -229,6 +244,16 @@ pub fn run_udp_tokio(pool: Arc<Pool>, s: &Session, seed: u64) -> SessionResult {
                     }
                     let _ = peer.send(&bytes).await.expect("peer send");
                     book.ev(json!({"ev": "PeerDgram", "frames": desc}));
+                },
+                Op::Quiet => {
+                    book.ev(json!({"ev": "ReadCall"}));
+                    match tokio::time::timeout(Duration::from_millis(120), framed.read()).await {
+                        Err(_) => book.ev(json!({"ev": "Cancel"})),
+                        Ok(x) => {
+                            let o = classify_result(&mut book.sh, Ok(x));
+                            book.ev(result_event(&o));
+                        },
+                    }
                 },
                 Op::Read(exp) => {
                     book.ev(json!({"ev": "ReadCall"}));
@@ -649,6 +674,9 @@ pub fn random_plan(transport: &str, pool: &Pool, seed: u64, bytes_target: usize,
             ops.push(Op::Dgram(fs));
             for _ in 0..n {
                 ops.push(Op::Read(None));
+            }
+            if rng.gen_bool(0.06) || ops.len() == 9 {
+                ops.push(Op::Quiet);
             }
             if with_writes && (rng.gen_bool(0.2) || ops.len() < 6) {
                 // a third of the user writes (and the first ones of every session) are the largest frames of the mode:
